@@ -5,6 +5,7 @@
 extern "C" {
 #include "qlibc.h"
 }
+#include "common/via_members.hpp"   // after the prototypes: container calls go through the member pointers in half of the cases
 using namespace vf;
 const char *vf_harness_name = "vector";
 
@@ -114,6 +115,13 @@ struct Run : ContBase {
         if (pos > 0 && pos < n - 1) { inner_removed++; if (grown) nt++; }
         m.erase(m.begin() + pos);
     }
+    // a capacity that any machine can provide but that is far beyond the handful of elements a history holds:
+    // around the powers of two 128..8192, at most 4 MiB of element storage
+    size_t big_cap() {
+        size_t c0 = ((size_t)1 << s.range(7, 13)) + (size_t)s.range(0, 2) - 1;
+        size_t lim = ((size_t)4 << 20) / objsize;
+        return c0 > lim ? lim : c0;
+    }
     void do_resize() {
         long n = (long)m.size();
         if (s.chance(1, 10)) {
@@ -133,6 +141,7 @@ struct Run : ContBase {
             return;
         }
         size_t nm = s.chance(1, 4) ? 0 : (size_t)s.range(0, 2 * n + 3);
+        if (s.chance(1, 10)) { nm = big_cap(); c.tag("large_resize"); }
         bool ok = qvector_resize(v, nm);
         c.op("resize(%zu) n=%ld cap=%zu", nm, n, cap);
         seei(ok);
@@ -183,6 +192,7 @@ struct Run : ContBase {
           static const size_t edge[] = {64, 128, 256, 256, 512, 768, 1024, 4096};
           objsize = k == 0 ? (size_t)s.range(1, 16) : k == 1 ? (size_t)s.range(17, 64) : edge[s.range(0, 7)] + (size_t)s.range(0, 2) - 1; }   // also around/at plausible internal buffer sizes
         cap = (size_t)s.range(0, 8);
+        if (s.chance(1, 8)) { cap = big_cap(); c.tag("large_initial_capacity"); }   // capacities in the hundreds and thousands, not only a handful
         policy = (int)s.range(0, 2);
         int opt = policy == 0 ? (s.boolean() ? QVECTOR_RESIZE_EXACT : 0) : policy == 1 ? QVECTOR_RESIZE_LINEAR : QVECTOR_RESIZE_DOUBLE;
         // any subset of the policy bits is a legal option word (the contents never depend on which one wins),
